@@ -2,6 +2,7 @@
 """Print the prompt given to a mutation sub-agent: only the property text and its scratch worktree."""
 import json, sys
 pid, tag = sys.argv[1], sys.argv[2]
+avoid = sys.argv[3] if len(sys.argv) > 3 else ""
 p = next(json.loads(l) for l in open('/verif/properties.jsonl') if json.loads(l)['id'] == pid)
 wt = f"/tmp/wt_{tag}"
 print(f"""You have your own scratch git worktree of the Python library seandstewart/python-typelib at {wt} (a pure-Python runtime type-inspection and (un)marshalling library: `typelib.marshal`, `typelib.unmarshal`, `typelib.codec`, `typelib.binding`, `typelib.graph`, `typelib.serdes`, `typelib.py.*`). Work ONLY inside {wt}; do not read or touch any other checkout of this library, and do not look at /verif.
@@ -15,7 +16,7 @@ TITLE: {p['title']}
 STATEMENT: {p['statement']}
 QUANTIFIED OVER: {p['quantifier']['text']}
 
-YOUR TASK: make ONE realistic change to the library's source under {wt}/src/typelib (the kind of slip or well-meant refactoring a maintainer could plausibly commit: an off-by-one, a reordered check, a 'harmless' optimisation or caching, a too-narrow or too-broad condition, a lost special case, two sites that each look fine alone) that BREAKS this property while the package still imports and the existing test-suite result is unchanged (still exactly that one failure). The breakage must need something specific to manifest — an unusual input, a particular nesting or combination of types, a specific sequence of calls, a boundary value — not something ordinary use would expose at once. Do not break it by raising unconditionally, deleting features wholesale, or special-casing a magic value.
+YOUR TASK: make ONE realistic change to the library's source under {wt}/src/typelib (the kind of slip or well-meant refactoring a maintainer could plausibly commit: an off-by-one, a reordered check, a 'harmless' optimisation or caching, a too-narrow or too-broad condition, a lost special case, two sites that each look fine alone) that BREAKS this property while the package still imports and the existing test-suite result is unchanged (still exactly that one failure). The breakage must need something specific to manifest — an unusual input, a particular nesting or combination of types, a specific sequence of calls, a boundary value — not something ordinary use would expose at once. Do not break it by raising unconditionally, deleting features wholesale, or special-casing a magic value.{(" Someone else already tried a change in " + avoid + "; pick a DIFFERENT place and mechanism.") if avoid else ""}
 
 DELIVER, all inside {wt}:
 1. the change, left UNCOMMITTED in the working tree (so that `git -C {wt} diff` shows exactly it) — source files only, do not edit tests;
